@@ -96,3 +96,75 @@ func (i *interpreter) newError(fr *frame, msg string) value {
 	errNew := i.prog.ImportedPackage("errors").Func("New")
 	return call(i, fr, 0, errNew, []value{msg})
 }
+
+func init() {
+	// annotations.GetCastProperty[T] is reflection-driven glue (reflect.MakeSlice/Convert/Set); it is
+	// modelled here with the same contract: absent property -> (nil, nil); slice target -> the value
+	// must be a slice whose elements' dynamic types are convertible to T's element type; otherwise a
+	// plain type assertion to T. Errors carry a message only.
+	intrinsics["github.com/gopher-fleece/gleece/v2/core/annotations.GetCastProperty"] = func(fr *frame, args []value) value {
+		i := fr.i
+		fn := fr.fn
+		targs := fn.TypeArgs()
+		if len(targs) != 1 {
+			i.path.abort("GetCastProperty: unexpected instantiation %s", fn)
+		}
+		T := targs[0]
+		nilPtr := (*value)(nil)
+		attrib := args[0].(*value)
+		if attrib == nil {
+			panic(runtimeError("invalid memory address or nil pointer dereference"))
+		}
+		// attr.GetProperty(name)
+		attrT := mustDeref(fn.Params[0].Type())
+		res, ok := i.callMethodWithArgs(fr, attrT, load(attrT, attrib), "GetProperty", []value{args[1]})
+		if !ok {
+			i.path.abort("GetCastProperty: Attribute.GetProperty not found")
+		}
+		pv := res.(*value)
+		if pv == nil {
+			return tuple{nilPtr, iface{}}
+		}
+		val, _ := (*pv).(iface)
+		if st, isSlice := T.Underlying().(*types.Slice); isSlice {
+			if val.t == nil {
+				panic(runtimeError("invalid memory address or nil pointer dereference")) // reflect.TypeOf(nil).Kind()
+			}
+			if _, srcIsSlice := val.t.Underlying().(*types.Slice); !srcIsSlice {
+				return tuple{nilPtr, i.newError(fr, "failed to cast attribute property to "+T.String()+" - value cannot be converted")}
+			}
+			src := val.v.([]value)
+			out := make([]value, len(src))
+			for k, e := range src {
+				et := val.t.Underlying().(*types.Slice).Elem()
+				ev := e
+				if _, isIface := et.Underlying().(*types.Interface); isIface {
+					it := e.(iface)
+					if it.t == nil {
+						panic(runtimeError("reflect: call of reflect.Value.Type on zero Value"))
+					}
+					et, ev = it.t, it.v
+				}
+				if !types.ConvertibleTo(et, st.Elem()) {
+					return tuple{nilPtr, i.newError(fr, "failed to cast attribute property to "+T.String()+" - element cannot be converted")}
+				}
+				if types.Identical(et.Underlying(), st.Elem().Underlying()) {
+					out[k] = ev
+				} else {
+					out[k] = i.convert(st.Elem(), et, ev)
+				}
+			}
+			var cell value = out
+			return tuple{&cell, iface{}}
+		}
+		if val.t != nil && types.Identical(val.t, T) {
+			cell := val.v
+			return tuple{&cell, iface{}}
+		}
+		if _, isIface := T.Underlying().(*types.Interface); isIface && val.t != nil {
+			var cell value = val
+			return tuple{&cell, iface{}}
+		}
+		return tuple{nilPtr, i.newError(fr, "property exists but cannot be cast to "+T.String())}
+	}
+}
